@@ -506,6 +506,9 @@ def canon_event(e):
     return {k: e[k] for k in EVENT_KEY_ORDER if k in e} | {k: e[k] for k in sorted(e) if k not in EVENT_KEY_ORDER}
 
 
+STATE_CORNER = {}   # json of a model state's history -> NilCornerRank of the state it leads to (MC_L1)
+
+
 def parse_emission(out):
     """STATE / EVENT lines printed by MC_L1 (JSON strings containing JSON)."""
     states, events = [], []
@@ -521,6 +524,7 @@ def parse_emission(out):
                 hist = [canon_event(x) for x in obj["hist"]]
                 if hist not in states:      # several workers may report the same state
                     states.append(hist)
+                    STATE_CORNER[json.dumps(hist)] = obj.get("corner", 0)
             else:
                 events.append(canon_event(obj))
     return states, events
@@ -543,7 +547,10 @@ def emission(ctx, st):
         ctx.states += c["distinct"]
         ctx.transitions += c["generated"]
         ctx.log("MC %s/%s: %d distinct states, %d generated (cached model run)" % (st["module"], cfgname, c["distinct"], c["generated"]))
-        return [[canon_event(x) for x in h] for h in c["states"]], [canon_event(e) for e in c["events"]]
+        sts = [[canon_event(x) for x in h] for h in c["states"]]
+        for h, k in zip(sts, c.get("corner", [])):
+            STATE_CORNER[json.dumps(h)] = k
+        return sts, [canon_event(e) for e in c["events"]]
     r = stage_mc(ctx, dict(st, kind="mc"))
     states, events = parse_emission(r["out"])
     if not states or not events:
@@ -552,7 +559,7 @@ def emission(ctx, st):
     tmp = cpath + ".tmp%d" % os.getpid()
     with open(tmp, "w") as f:
         json.dump({"states": states, "events": events, "distinct": r["distinct"], "generated": r["generated"],
-                   "wall_s": round(r["wall"], 1)}, f)
+                   "corner": [STATE_CORNER.get(json.dumps(h), 0) for h in states], "wall_s": round(r["wall"], 1)}, f)
     os.replace(tmp, cpath)
     return states, events
 
@@ -619,7 +626,17 @@ def stage_edges(ctx, st):
             lack = any(not any(p[0] == [120] for p in d[1]) for d in docs)
             nil = any(any(p[0] == [120] and p[1] == ["nil"] for p in d[1]) for d in docs)
             return lack and nil
-        pool = [h for h in states if nil_corner(h)]
+        # the model says which states end in the corner (the history alone does not: later operations rewrite
+        # documents); those in which the document that lacks x comes first in the index are taken first
+        first = [h for h in states if STATE_CORNER.get(json.dumps(h), 0) == 2]
+        other = [h for h in states if STATE_CORNER.get(json.dumps(h), 0) == 1]
+        if first or other:
+            rng.shuffle(first)
+            rng.shuffle(other)
+            half = max(1, nstates // 2) if nstates > 0 else len(first)
+            pool = first[:half] + other[:max(0, nstates - min(half, len(first)))] if nstates > 0 else first + other
+        else:
+            pool = [h for h in states if nil_corner(h)]
         if not pool:
             raise Inconclusive("no model state has the nil corner")
     if st.get("rich_states"):
